@@ -24,6 +24,7 @@ import (
 	proto "github.com/kubewharf/kubebrain-client/api/v2rpc"
 
 	"github.com/kubewharf/kubebrain/pkg/metrics"
+	"github.com/kubewharf/kubebrain/pkg/verifhook"
 )
 
 const (
@@ -46,6 +47,7 @@ func (b *backend) Watch(ctx context.Context, prefix string, revision uint64) (<-
 		klog.ErrorS(err, "add watcher failed", "chan", readChan)
 		return nil, err
 	}
+	verifhook.Yield("watch.subscribed", revision, 0)
 
 	result := make(chan []*proto.Event, resultChanLength)
 
@@ -56,6 +58,7 @@ func (b *backend) Watch(ctx context.Context, prefix string, revision uint64) (<-
 	}
 
 	ret := b.watchCache.FindEvents(revision)
+	verifhook.Yield("watch.cacheread", revision, 0)
 
 	if ret.empty {
 		if revision > b.tso.GetRevision() {
@@ -123,6 +126,7 @@ func (b *backend) processEvents(cancel context.CancelFunc, out chan<- []*proto.E
 
 	// always ensure we fully read the channel
 	for events := range in {
+		verifhook.Yield("watch.process", revision, 0)
 		evs := filterByPrefix(filterByRevision(events, revision), prefixBytes)
 		if len(evs) > 0 {
 			out <- evs
@@ -132,6 +136,7 @@ func (b *backend) processEvents(cancel context.CancelFunc, out chan<- []*proto.E
 	klog.InfoS("events chan closed", "chan", in, "prefix", prefix)
 	b.metricCli.EmitCounter("watcherhub.events_chan.closed", 1, metrics.Tag("prefix", prefix))
 
+	verifhook.Yield("watch.closing", revision, 0)
 	close(out)
 	klog.InfoS("watch channel closed", "prefix", prefix)
 	cancel()
